@@ -1122,7 +1122,8 @@ def check_modules(c):
                 md = max(abs(float(p.max()) - float(q.min())), abs(float(q.max()) - float(p.min()))) ** 2
             else:
                 md = 1.0
-            for flag, want in ((None, md), (True, md), (False, 1.0), (3.5, 3.5)):
+            for flag, want in ((None, md), (True, md), (False, 1.0), (3.5, 3.5), (1.0, 1.0), (1, 1.0),
+                               (torch.tensor(1.0), 1.0)):
                 mod = cls(a, b, norm=flag)
                 got, base = mod(x, y, m), fn(x, y, m)
                 if _maxabs(got * want - base) > 1e-6 * max(1.0, abs(float(base))):
